@@ -57,9 +57,14 @@ Require Import EmbossV.View.Stable.
 
 (* Anything a view reports as known on a prefix of a message keeps its value when more bytes
    arrive — hereditarily for nested views — for every module in the well-formed class wf_stable
-   (no array fields, no Null byte order, static scalar sizes as the compiler enforces, no
-   parameterised nested structures, aliases of scalars), every structure, parameters, nesting
-   depth, prefix and extension. *)
+   (no array fields, no Null byte order, static scalar sizes as the compiler enforces, aliases of
+   scalars, no $present() of a parameter), every structure, parameters, nesting depth, prefix and
+   extension.  Nested structures may be parameterised ([Par(x) p]): their arguments are evaluated in
+   the parent, a known argument keeps its value, an unknown one may become known.  [prefix_stable_at]
+   is the typed hereditary order [flet]: it is the strict order [fle] except for one PRIVATE flag,
+   has_p() of a parameter p of a nested view (= parameters_initialized_, Known(false) on the
+   default-constructed view, Known(true) once the field is located: [prefix_stable_refuted_param_flag]);
+   where no nested structure has parameters it IS the strict order ([prefix_stable_strict]). *)
 Theorem prefix_stable_partial : forall m,
   wf_stable m = true ->
   forall d ps fuel bytes extra, In d m -> prefix_stable_at m d ps fuel bytes extra.
@@ -77,8 +82,29 @@ Theorem prefix_stable_top : forall m d ps fuel bytes extra,
      exists f', nth_error (fr_sub r') i = Some (Some f') /\
        (forall b, fr_has f = Some b -> fr_has f' = Some b) /\
        (fr_ok f = true -> fr_ok f' = true /\ fr_val f' = fr_val f) /\
-       fle f f').
+       krel m (flet m true) false (nth_error (fields d) i) f f').
 Proof. exact Stable.prefix_stable_top. Qed.
+
+(* every has flag is kept, hereditarily, when no structure used as a field type has parameters *)
+Theorem prefix_stable_strict : forall m,
+  wf_stable m = true -> strict_targets m = true ->
+  forall d ps fuel bytes extra, In d m ->
+    fle (eval_struct m bytes fuel d ps true (root bytes))
+        (eval_struct m (bytes ++ extra) fuel d ps true (root (bytes ++ extra))).
+Proof. exact Stable.prefix_stable_strict. Qed.
+Print Assumptions prefix_stable_strict.
+
+(* the strict order fails on a module of the class: p().has_k() of a parameterised nested view *)
+Theorem prefix_stable_refuted_param_flag :
+  exists m d ps fuel bytes extra,
+    wf_stable m = true /\ In d m /\
+    let r := eval_struct m bytes fuel d ps true (root bytes) in
+    let r' := eval_struct m (bytes ++ extra) fuel d ps true (root (bytes ++ extra)) in
+    (exists f f' k k', nth_error (fr_sub r) 1 = Some (Some f) /\ nth_error (fr_sub r') 1 = Some (Some f') /\
+                  nth_error (fr_sub f) 0 = Some (Some k) /\ nth_error (fr_sub f') 0 = Some (Some k') /\
+                  fr_has k = Some false /\ fr_has k' = Some true) /\
+    ~ fle r r'.
+Proof. exact Stable.prefix_stable_refuted_param_flag. Qed.
 
 (* The unrestricted statement is false of the faithful model; the witness is a genuine defect
    of the generated code / runtime (finding F9; the Null-byte-order witness disappeared with fix c90547c). *)
@@ -101,6 +127,12 @@ Proof. exact Stable.prefix_stable_refuted_array. Qed.
    structure, a bits block with an alias, a virtual field and a [requires] *)
 Example wf_stable_inhabited : wf_stable m_ex = true.
 Proof. exact Stable.wf_stable_example. Qed.
+
+(* ... and by a module with a parameterised nested structure, Par(n) p *)
+Example wf_stable_inhabited_param : wf_stable m_par = true /\ strict_targets m_par = false.
+Proof. exact (conj Stable.wf_stable_example_param Stable.wf_stable_example_param_not_strict). Qed.
+Example prefix_stable_param_instance : prefix_stable_at m_par d_par [] 8 [] [1; 7; 5].
+Proof. exact Stable.wf_stable_example_param_instance. Qed.
 
 (* ---------- agreement with the reference semantics (View/Ref.v; proved in View/RefProofs.v) ---------- *)
 Require Import EmbossV.View.Ref EmbossV.View.RefProofs.
